@@ -221,6 +221,19 @@ func (e *daemonEngine) follow(n *dNode, upTo uint64, peers []string, wrongHash b
 	ctx, cancel := serverCtx("operator.sim:1")
 	n.followCancel = cancel
 	started := time.Now()
+	// which chain-info requests of the follower were answered by a node of the chain (as opposed to a liar)
+	e.w.OnAnswer = func(from, to, method string, ok bool) {
+		if !ok || from != n.addr || method != MChainInfo {
+			return
+		}
+		for _, m := range e.nodes {
+			if m.addr == to && m.idx < e.sc.N {
+				n.mu.Lock()
+				n.infoFromMembers++
+				n.mu.Unlock()
+			}
+		}
+	}
 	e.rec.Ev("follow", n.addr, "upTo=%d peers=%v wrongHash=%v", upTo, peers, wrongHash)
 	e.rec.Count("probe:follow_started", 1)
 	err := dd.StartFollowChain(&drand.StartSyncRequest{Nodes: peers, UpTo: upTo, Metadata: &drand.Metadata{BeaconID: "default", ChainHash: hash}},
@@ -238,6 +251,7 @@ func (e *daemonEngine) follow(n *dNode, upTo uint64, peers []string, wrongHash b
 func (e *daemonEngine) checkFollower(n *dNode, plan *FollowPlan, healAt time.Time) {
 	n.mu.Lock()
 	last, ended, ferr := n.lastFollowPut, n.followEnded, n.followErr
+	infoOK := n.infoFromMembers
 	n.mu.Unlock()
 	if plan.WrongHash {
 		if last != 0 {
@@ -271,8 +285,9 @@ func (e *daemonEngine) checkFollower(n *dNode, plan *FollowPlan, healAt time.Tim
 	e.rec.Count("probe:follow_checked", 1)
 	if elapsed >= bound && last+1 < target {
 		facts := "behind"
-		if ended && ferr != nil && strings.Contains(ferr.Error(), "unable to get chain info") {
-			// the call returned an error to the operator before any sync started
+		if ended && ferr != nil && infoOK == 0 && (strings.Contains(ferr.Error(), "unable to get chain info") || strings.Contains(ferr.Error(), "chain hash mismatch")) {
+			// no node of the chain got its chain info through to the follower (requests lost or timed out); the
+			// call returned an error to the operator before any sync started
 			facts = "gave-up-when-no-peer-answered-the-chain-info-request"
 		} else if plan.InfoLiarLast {
 			facts = "last-peer-gives-another-chain-info"
